@@ -44,7 +44,7 @@ def gen_plan(rng, index, tier):
         bp["pinrings"] = 2
     cfg = {"reactor": "gen", "blueprint": bp, "settings": {"nCycles": 1, "burnSteps": 1}, "actors": [], "ngeneric": rng.randint(4, 9), "rejected": rng.random() < 0.15}
     steps = []
-    kinds = ["g_add", "g_add", "g_insert", "g_remove", "g_removeAll", "g_setChildren", "a_remove", "a_add", "a_insert", "a_reorder", "a_sort", "a_removeAll", "a_setChildren", "b_remove", "b_add", "copy", "pickle", "detach_copy"]
+    kinds = ["g_add", "g_add", "g_insert", "g_remove", "g_removeAll", "g_setChildren", "a_remove", "a_add", "a_insert", "a_reorder", "a_sort", "a_removeAll", "a_setChildren", "b_remove", "b_add", "b_replace", "copy", "pickle", "detach_copy"]
     if cfg["rejected"]:
         kinds += ["x_remove_nonchild", "x_add_present"]
     for _ in range(rng.randint(10, 70)):
@@ -419,6 +419,28 @@ class Universe:
             b = self.origin.pop(c)
             O[b].add(O[c])
             self.m_attach(b, c)
+            return True
+        if op == "b_replace":
+            # "replacing": a block takes over the design of another block (typically control-rod
+            # insertion); it receives copies, the replacement block keeps its own children
+            blks = self.of_class(is_blk)
+            b = self.pick(blks, st["a"])
+            r = self.pick([x for x in blks if x != b], st["b"])
+            if b is None or r is None:
+                return False
+            want = len(self.kids[r])
+            O[b].replaceBlockWithBlock(O[r])
+            for c in list(self.kids[b]):
+                self.m_detach(b, c)
+            new = list(O[b])
+            if len(new) != want:
+                self.fail("C01.shape", f"step {k}: replaceBlockWithBlock gave {O[b]} {len(new)} children, the replacement block has {want}", what="replace-count", op=op)
+            for c in new:
+                if id(c) in self.h:
+                    self.fail("C01.shape", f"step {k}: replaceBlockWithBlock put {c}, a child of {self.objs.get(self.parent[self.h[id(c)]])}, into {O[b]} (the replaced block must receive copies)", what="replace-moved-children", op=op)
+                    return True
+                self.kids[b].append(self.register_tree(c, b))
+            self.probe("block_replacements")
             return True
         if op in ("copy", "pickle", "detach_copy"):
             cands = [hd for hd in sorted(O) if hd != 0 and type(O[hd]).__name__ not in ("Reactor", "Core", "SpentFuelPool", "ExcoreStructure") and len(self.walk_deep(O[hd])) < 120]
